@@ -16,6 +16,7 @@ mod c17;
 mod c13;
 mod c11;
 mod c06;
+mod race;
 fn main() {
     // run the harness on a thread named "main" regardless of how it was started
     let a: Vec<String> = std::env::args().collect();
@@ -52,6 +53,8 @@ fn main() {
         "C03" | "C02" | "C04" => multi::run(seed, tier, &mut out, false),
         "C03b" => multi::run(seed, tier, &mut out, true),
         "C19M" => multi::run_small(seed, tier, &mut out),
+        "C01S" => race::run(seed, tier, &mut out, false),
+        "C03S" => race::run(seed, tier, &mut out, true),
         "GIVEN" => multi::run_given(&mut out),
         "C03H" => multi::run_detour(seed, tier, &mut out),
         "ROWS" => multi::run_rows(seed, tier, &mut out),
